@@ -182,7 +182,7 @@ static void ob_distributions(H<T>& h)
         }
         T const E = h.input("E", -1e6, 1e6);
         T const S = h.input("S", 0.0, 1e6, true, false);
-        auto const tot = hep::create_result<T>(3 + i, 2, 2, E, S);
+        auto const tot = hep::create_result<T>(3 + i, 2, 1, E, S);   // one of the non-zero evaluations was not finite
         results.emplace_back(std::vector<hep::distribution_result<T>>{hep::distribution_result<T>(params, b)},
             tot.calls(), tot.non_zero_calls(), tot.finite_calls(), tot.sum(), tot.sum_of_squares());
     }
@@ -201,7 +201,8 @@ static void ob_distributions(H<T>& h)
     std::vector<hep::mc_result<T>> totals(results.begin(), results.end());
     hep::mc_result<T> const ref = hep::accumulate<hep::weighted_with_variance>(totals.begin(), totals.end());
     h.check("C13|distributions.integrated_result_combined_by_the_same_rule", h.eq(c.sum(), ref.sum()) &&
-        h.eq(c.sum_of_squares(), ref.sum_of_squares()) && h.truth(c.calls() == ref.calls()));
+        h.eq(c.sum_of_squares(), ref.sum_of_squares()) && h.truth(c.calls() == ref.calls() &&
+        c.non_zero_calls() == ref.non_zero_calls() && c.finite_calls() == ref.finite_calls() && c.non_zero_calls() == 2 * m && c.finite_calls() == m));
 }
 
 template <typename T>
